@@ -1598,4 +1598,4 @@ MANIFEST = {
             "as_strided/pad/tensordot/max index semantics, the harness.",
 }
 
-MANIFEST_ADDENDUM = 'Oracle additions: inputs strided on a leading axis only (a[::2], a[::-1]); fractional window/step/dilation sequences must be rejected. Round 5: integer-valued batches for batchnorm.'
+MANIFEST_ADDENDUM = 'Oracle additions: inputs strided on a leading axis only (a[::2], a[::-1]); fractional window/step/dilation sequences must be rejected. Round 5: integer-valued batches for batchnorm. Round 7: empty batch/channel axes for pooling (forward and backward), integer-valued scores and integer hinge for multiclass_hinge.'
